@@ -263,6 +263,26 @@ func rqCases() []rqCase {
 	return out
 }
 
+var rqCur struct {
+	mu  sync.Mutex
+	rig *rqRig
+}
+
+// rqInstallRecover installs ONE recover hook for the whole test; it forwards to the rig that is current.
+func rqInstallRecover() {
+	VRecover = func(name string, p any) {
+		rqCur.mu.Lock()
+		r := rqCur.rig
+		rqCur.mu.Unlock()
+		if r != nil {
+			r.pmu.Lock()
+			r.panics = append(r.panics, fmt.Sprintf("%s: %v", name, p))
+			r.pmu.Unlock()
+		}
+	}
+}
+func rqSetCurrent(r *rqRig) { rqCur.mu.Lock(); rqCur.rig = r; rqCur.mu.Unlock() }
+
 type rqRig struct {
 	ctl    *SourceControl
 	src    *rqSource
@@ -421,11 +441,7 @@ func rqSequences(t *testing.T, base string, id *int) {
 		dir := filepath.Join(base, fmt.Sprintf("rqs%d", *id))
 		os.MkdirAll(dir, 0775)
 		rig := rqNewRig(dir, false)
-		VRecover = func(name string, p any) {
-			rig.pmu.Lock()
-			rig.panics = append(rig.panics, fmt.Sprintf("%s: %v", name, p))
-			rig.pmu.Unlock()
-		}
+		rqSetCurrent(rig)
 		if err := rig.start(); err != nil {
 			t.Fatal(err)
 		}
@@ -469,8 +485,7 @@ func TestVerifRequests(t *testing.T) {
 	defer os.RemoveAll(base)
 	cases := rqCases()
 	id := 0
-	oldRecover := VRecover
-	defer func() { VRecover = oldRecover }()
+	rqInstallRecover() // once, before any goroutine of the code under test exists
 	// one rig per (timing, case): a wedged core loop must not spoil the following cases
 	for _, timing := range []string{"running", "never", "stopped", "selfterm"} {
 		for _, c := range cases {
@@ -483,11 +498,7 @@ func TestVerifRequests(t *testing.T) {
 			dir := filepath.Join(base, fmt.Sprintf("rq%d", id))
 			os.MkdirAll(dir, 0775)
 			rig := rqNewRig(dir, timing == "selfterm")
-			VRecover = func(name string, p any) {
-				rig.pmu.Lock()
-				rig.panics = append(rig.panics, fmt.Sprintf("%s: %v", name, p))
-				rig.pmu.Unlock()
-			}
+			rqSetCurrent(rig)
 			expect := c.Expect
 			switch timing {
 			case "running":
